@@ -444,6 +444,40 @@ func hFrames(dir string) {
 		out.Line(op, ans)
 		out.Count("file")
 	}
+	// arbitrary Writer.Write calls - slices of any size, also empty ones, also after large ones - through
+	// the real Reader.WriteTo and its recycled chunk object
+	for i := 0; i < n*4; i++ {
+		st := &chunkStream{codec: codec}
+		w := &snapshot.Writer{Sender: st}
+		var pieces []string
+		for k := 1 + r.Intn(7); k > 0; k-- {
+			var p []byte
+			switch r.Intn(5) {
+			case 0:
+				p = []byte{}
+			case 1:
+				p = nil
+			case 2:
+				p = bytes.Repeat([]byte{byte(r.Intn(256))}, 100+r.Intn(3000))
+			default:
+				p = make([]byte, 1+r.Intn(12))
+				r.Read(p)
+			}
+			if _, err := w.Write(p); err != nil {
+				panic(err)
+			}
+			pieces = append(pieces, hx(p))
+		}
+		var buf bytes.Buffer
+		ans := guard(func() string {
+			if _, err := (snapshot.Reader{Stream: st}).WriteTo(&buf); err != nil {
+				return "err recv"
+			}
+			return "ok " + hx(buf.Bytes())
+		})
+		out.Line("ship "+strings.Join(pieces, " "), ans)
+		out.Count("ship")
+	}
 	// compressors: random payloads through every registered compressor from many goroutines at once
 	for _, name := range []string{"gzip", "snappy", "zstd"} {
 		comp := encoding.GetCompressor(name)
